@@ -76,9 +76,37 @@ func checkText(r *ev.Run, text string) {
 		r.Add("panics_left_to_C14", 1)
 		return
 	}
+	// a handle written in two directives makes the specification ill-formed (emerge rejects it; that side is C07's):
+	// such a text must be rejected, or recorded exactly as written
+	repeated := false
+	seenHandle := map[string]int{}
+	for i, w := range want {
+		for _, h := range w.Handles {
+			key := ""
+			if h.Rule != nil {
+				key = "<" + h.Rule.LHS + "=>"
+				if h.Rule.RHS != nil {
+					key = "<" + h.Rule.LHS + "=" + ebnfref.ExprString(h.Rule.RHS) + ">"
+				}
+			} else {
+				key = ebnfref.TermName(h.Term)
+			}
+			if j, ok := seenHandle[key]; ok && j != i {
+				repeated = true
+			}
+			seenHandle[key] = i
+		}
+	}
 	if !res.OK() {
+		if repeated {
+			r.Add("specs_with_a_handle_in_two_levels_rejected", 1)
+			return
+		}
 		r.Report("", fmt.Sprintf("a well-formed specification is rejected: %s\n%s", res.Err, text), in)
 		return
+	}
+	if repeated {
+		r.Add("specs_with_a_handle_in_two_levels_accepted", 1)
 	}
 	r.Distinct(text)
 	got := res.Spec.Precedences
@@ -124,6 +152,7 @@ func checkText(r *ev.Run, text string) {
 		}
 		sort.Strings(gotTerms)
 		sort.Strings(wantTerms)
+		wantTerms = dedupe(wantTerms) // a terminal written twice in one directive is one handle
 		if strings.Join(gotTerms, "\x00") != strings.Join(wantTerms, "\x00") {
 			r.Report("", fmt.Sprintf("level %d has terminal handles %q, directive %d lists %q\n%s", i, gotTerms, i, wantTerms, text), in)
 			return
@@ -207,6 +236,16 @@ func checkText(r *ev.Run, text string) {
 	}
 }
 
+func dedupe(xs []string) []string {
+	var out []string
+	for i, x := range xs {
+		if i == 0 || x != xs[i-1] {
+			out = append(out, x)
+		}
+	}
+	return out
+}
+
 func main() {
 	r := ev.Start("C12", "exploration")
 	if r.Replay != "" {
@@ -218,13 +257,14 @@ func main() {
 		r.Finish()
 	}
 	if r.Fork(16) {
-		r.Set("rule", fmt.Sprintf("every list of up to 3 directives with pairwise disjoint handle lists (1-2 handles each, drawn in every order from %d handles: string and named terminals, rule handles with alternation, groups, optional, star, trailing and empty alternatives), every assignment of @left/@right/@none, interleaved with the other declarations at every position (complete for <= 2 directives), with and without the optional semicolons; non-trivial = accepted specification; distinct by text", len(handlePool)))
+		r.Set("rule", fmt.Sprintf("every list of up to 3 directives with pairwise disjoint handle lists, and lists that repeat a handle within a directive or across directives (these must be rejected or recorded as written) (1-2 handles each, drawn in every order from %d handles: string and named terminals, rule handles with alternation, groups, optional, star, trailing and empty alternatives), every assignment of @left/@right/@none, interleaved with the other declarations at every position (complete for <= 2 directives), with and without the optional semicolons; non-trivial = accepted specification; distinct by text", len(handlePool)))
 		r.Set("evaluations", r.Get("specs"))
 		r.Finish()
 	}
 	r.Set("exhaustive", true)
 	nlines := len(strings.Split(strings.TrimSpace(prelude), "\n"))
 	count := 0
+	few := false // true: two placements only
 	emit := func(ds []directive) {
 		// interleavings
 		var positions [][]int
@@ -245,6 +285,9 @@ func main() {
 		if len(ds) == 2 && len(ds[0].handles)+len(ds[1].handles) > 2 {
 			// complete interleaving only for single-handle levels; five representative placements otherwise
 			positions = [][]int{{0, 0}, {0, nlines}, {2, 2}, {1, 4}, {nlines, nlines}}
+		}
+		if few {
+			positions = [][]int{make([]int, len(ds)), []int{1, 4, nlines}[:len(ds)]}
 		}
 		for _, pos := range positions {
 			for _, semi := range []bool{true, false} {
@@ -310,6 +353,36 @@ func main() {
 			}
 		}
 	}
+	few = true
+	// directives that repeat a handle: within one directive, across two (identical lists, permuted lists, partial
+	// overlap), and a third directive repeating the first - must be rejected or recorded exactly as written
+	for _, l1 := range lists {
+		for _, l2 := range lists {
+			if disjoint(l1, l2) || (r.Quick() && len(l1)+len(l2) == 4 && (l1[0]+l2[1])%3 != 0) {
+				continue
+			}
+			for _, a1 := range assocs {
+				for _, a2 := range assocs {
+					emit([]directive{{a1, l1}, {a2, l2}})
+				}
+			}
+		}
+	}
+	for i := range handlePool {
+		for _, a1 := range assocs {
+			emit([]directive{{a1, []int{i, i}}})
+			for j := range handlePool {
+				if i != j {
+					emit([]directive{{a1, []int{i, j, i}}})
+					for _, a2 := range assocs {
+						emit([]directive{{a1, []int{i}}, {a2, []int{j}}, {a1, []int{i}}})
+						emit([]directive{{a1, []int{i, j}}, {a2, []int{(j + 1) % len(handlePool)}}, {a1, []int{j, i}}})
+					}
+				}
+			}
+		}
+	}
+	few = false
 	for i := range handlePool {
 		for j := range handlePool {
 			for k := range handlePool {
